@@ -300,6 +300,51 @@ func x509Variants(e *env, c *caseCtx) []x509Token {
 	fakeInter := certKey{cert: makeCert(t, inter.cert.Subject, true, fakeInterKey.Public(), &fakeRoot, nil, now.Add(-time.Hour), now.Add(24*time.Hour)), key: fakeInterKey.Priv}
 	fakeLeaf := makeCert(t, subj, false, attacker.Public(), &fakeInter, nil, now.Add(-time.Hour), now.Add(24*time.Hour))
 	add("forged-intermediate-naming-genuine-root", "x509/forged-leaf", D, certs(fakeLeaf, fakeInter.cert, root.cert), fakeLeaf, attacker.Priv)
+	// --- issuers that are genuine certificates of the PKI but are NOT entitled to issue (CA basic constraint / path length /
+	// key usage): only full path validation catches these
+	{
+		// (1) the attacker holds a genuine END-ENTITY certificate of the same PKI (own subject) and issues the victim's leaf with it
+		ownLeaf := certKey{cert: makeCert(t, pkix.Name{Organization: []string{"AttackerOrg"}, CommonName: "attacker.example.com"}, false, attacker.Public(), &inter, nil, now.Add(-time.Hour), now.Add(24*time.Hour)), key: attacker.Priv}
+		victimKey := runKey(t, "x509-attacker-2", enum.FamP256)
+		byLeaf := makeCert(t, subj, false, victimKey.Public(), &ownLeaf, nil, now.Add(-time.Hour), now.Add(24*time.Hour))
+		add("issued-by-genuine-non-ca-leaf", "x509/non-ca-issuer", D, certs(byLeaf, ownLeaf.cert, inter.cert, root.cert), byLeaf, victimKey.Priv)
+		// (2) a genuine intermediate whose certificate lacks the CA flag
+		noCAKey := mustKey(t, "inter-no-ca", enum.FamP256)
+		serial++
+		tpl := &x509.Certificate{SerialNumber: big.NewInt(serial), Subject: pkix.Name{Organization: []string{"Verif PKI"}, CommonName: "Intermediate without CA flag"},
+			NotBefore: now.Add(-time.Hour), NotAfter: now.Add(24 * time.Hour), BasicConstraintsValid: true, IsCA: false, KeyUsage: x509.KeyUsageCertSign | x509.KeyUsageDigitalSignature}
+		mk := func(tpl *x509.Certificate, pub crypto.PublicKey, parent certKey) *x509.Certificate {
+			der, err := x509.CreateCertificate(rand.Reader, tpl, parent.cert, pub, parent.key)
+			if err != nil {
+				t.Fatalf("certificate: %v", err)
+			}
+			c, _ := x509.ParseCertificate(der)
+			return c
+		}
+		noCA := certKey{cert: mk(tpl, noCAKey.Public(), root), key: noCAKey.Priv}
+		leafNoCA := makeCert(t, subj, false, victimKey.Public(), &noCA, nil, now.Add(-time.Hour), now.Add(24*time.Hour))
+		add("issued-by-intermediate-without-ca-flag", "x509/non-ca-issuer", D, certs(leafNoCA, noCA.cert, root.cert), leafNoCA, victimKey.Priv)
+		// (3) a genuine CA with path length 0 issues a sub-CA, which issues the leaf (path length exceeded)
+		pl0Key, subKey := mustKey(t, "inter-pl0", enum.FamP256), mustKey(t, "sub-ca", enum.FamP256)
+		serial++
+		tplPL0 := &x509.Certificate{SerialNumber: big.NewInt(serial), Subject: pkix.Name{Organization: []string{"Verif PKI"}, CommonName: "Intermediate pathlen 0"},
+			NotBefore: now.Add(-time.Hour), NotAfter: now.Add(24 * time.Hour), BasicConstraintsValid: true, IsCA: true, MaxPathLen: 0, MaxPathLenZero: true, KeyUsage: x509.KeyUsageCertSign | x509.KeyUsageDigitalSignature}
+		pl0 := certKey{cert: mk(tplPL0, pl0Key.Public(), root), key: pl0Key.Priv}
+		serial++
+		tplSub := &x509.Certificate{SerialNumber: big.NewInt(serial), Subject: pkix.Name{Organization: []string{"Verif PKI"}, CommonName: "Sub CA below pathlen 0"},
+			NotBefore: now.Add(-time.Hour), NotAfter: now.Add(24 * time.Hour), BasicConstraintsValid: true, IsCA: true, KeyUsage: x509.KeyUsageCertSign | x509.KeyUsageDigitalSignature}
+		sub := certKey{cert: mk(tplSub, subKey.Public(), pl0), key: subKey.Priv}
+		leafPL := makeCert(t, subj, false, victimKey.Public(), &sub, nil, now.Add(-time.Hour), now.Add(24*time.Hour))
+		add("issued-below-pathlen-0-intermediate", "x509/non-ca-issuer", D, certs(leafPL, sub.cert, pl0.cert, root.cert), leafPL, victimKey.Priv)
+		// (4) a genuine CA certificate whose key usage does not include certSign
+		kuKey := mustKey(t, "inter-no-certsign", enum.FamP256)
+		serial++
+		tplKU := &x509.Certificate{SerialNumber: big.NewInt(serial), Subject: pkix.Name{Organization: []string{"Verif PKI"}, CommonName: "Intermediate without certSign"},
+			NotBefore: now.Add(-time.Hour), NotAfter: now.Add(24 * time.Hour), BasicConstraintsValid: true, IsCA: true, KeyUsage: x509.KeyUsageDigitalSignature}
+		ku := certKey{cert: mk(tplKU, kuKey.Public(), root), key: kuKey.Priv}
+		leafKU := makeCert(t, subj, false, victimKey.Public(), &ku, nil, now.Add(-time.Hour), now.Add(24*time.Hour))
+		add("issued-by-ca-without-certsign-key-usage", "x509/non-ca-issuer", D, certs(leafKU, ku.cert, root.cert), leafKU, victimKey.Priv)
+	}
 	// genuine leaf, intermediate missing
 	add("intermediate-missing", "x509/incomplete-chain", D, certs(leaf.cert, root.cert), leaf.cert, leaf.key)
 	// genuine issuance, but the leaf is expired / not yet valid now
